@@ -119,7 +119,7 @@ def run(ctx, R, parts=('S', 'R', 'B')):
 
 
 # Iterator methods whose result is a function of the item sequence and that a base-case comparison can decide
-DECIDABLE_OVERRIDES = ('count', 'last', 'fold', 'for_each', 'nth', 'any', 'all')
+DECIDABLE_OVERRIDES = ('count', 'last', 'fold', 'for_each', 'nth', 'any', 'all', 'position')
 IGNORED_OVERRIDES = ('size_hint',)        # only a capacity hint: no item, order or termination depends on it
 
 
@@ -179,10 +179,10 @@ def overrides(ctx, R, rule='C11.O'):
                 # provided nth(n): the n-th item (from 0) of the walk; with at most one item that is the first item for n = 0 and None otherwise
                 nv = P(ctx, pm, 1)
                 exp = None
-            elif name in ('any', 'all'):
+            elif name in ('any', 'all', 'position'):
                 # provided any / all over at most one item: false / true without an item, otherwise the predicate's verdict on the item
                 fv = P(ctx, pm, 1)
-                exp = (T.FALSE if name == 'any' else T.TRUE) if not seq else ('call', 'apply#0', (fv, seq[0]))
+                exp = (NONE if name == 'position' else T.FALSE if name == 'any' else T.TRUE) if not seq else ('call', 'apply#0', (fv, seq[0]))
             elif name == 'fold':
                 # provided fold: init when there is no item, f(init, item) for one item (the supplied function's first application on the path)
                 init, fv = P(ctx, pm, 1), P(ctx, pm, 2)
@@ -194,7 +194,7 @@ def overrides(ctx, R, rule='C11.O'):
                 cases = [(cname + '/n=0', assume + [T.eq0(nv)], SOME(seq[0]) if seq else NONE), (cname + '/n>=1', assume + [T.cmp('Ge', nv, I(1))], NONE)]
             for cname, assume, exp in cases:
                 try:
-                    evm, mouts = ctx.entry(pm, assume=assume, symbolic_fns=(name in ('fold', 'for_each', 'any', 'all')))
+                    evm, mouts = ctx.entry(pm, assume=assume, symbolic_fns=(name in ('fold', 'for_each', 'any', 'all', 'position')))
                 except Exception:
                     mouts = None
                 if not mouts:
@@ -214,6 +214,9 @@ def overrides(ctx, R, rule='C11.O'):
                     if not ok and name in ('any', 'all') and exp[0] == 'call':
                         # the predicate's verdict was branched on: the returned constant must be the verdict this path assumed
                         ok = (r == T.TRUE and exp in mo['pc']) or (r == T.FALSE and T.bnot(exp) in mo['pc'])
+                    if not ok and name == 'position' and exp[0] == 'call':
+                        # position over one item: Some(0) where the predicate held, None where it did not
+                        ok = (match(r, SOME(I(0))) and exp in mo['pc']) or (match(r, NONE) and T.bnot(exp) in mo['pc'])
                     R.inst(rule, 'override/%s/%s' % (name, cname), ok, expected=exp, found=r, entry=pm,
                            note=None if ok else 'next yields %s for this class; under %s' % ('no item' if not seq else T.short(seq[0]), pc_text(mo['pc'], 6)))
 
